@@ -22,10 +22,10 @@ ASSUMPTIONS = ['the random-generator state (random, numpy.random) is saved next 
                '_info lines (DUMPED/LOADED markers) are excluded from the comparison by design',
                'the property speaks of completed saves: a crash during a dump is not in scope']
 CLASSES = {
-    'boundaries': {'quick': 192, 'thorough': 1800},
-    'copies': {'quick': 96, 'thorough': 1000},
-    'final_dump': {'quick': 120, 'thorough': 1500},
-    'sigkill': {'quick': 24, 'thorough': 240},
+    'boundaries': {'quick': 384, 'thorough': 1920},
+    'copies': {'quick': 192, 'thorough': 1000},
+    'final_dump': {'quick': 240, 'thorough': 1500},
+    'sigkill': {'quick': 48, 'thorough': 240},
 }
 MIN_EVENTS = {'quick': {'restore_points': 300, 'assert:resume': 1500, 'assert:indep': 150}}
 CASE_TIMEOUT = 240
